@@ -132,6 +132,328 @@ example : unmarshalCMPlain (marshalCMPlain true cmExample) = some (cmExample, []
 example : ((unmarshalCMPlain (marshalCMPlain false cmExample)).map fun r => r.1.cols.map (·.preAgg))
     = some [zeroPreAgg, [0, 0, 0, 9]] := by decide +kernel
 
+/-! ## chunk meta, self-compressing layout -/
+
+theorem idxOf?_some {α : Type} [BEq α] [LawfulBEq α] : ∀ (l : List α) (a : α) (i : Nat),
+    l.idxOf? a = some i → l[i]? = some a
+  | [], _, _, h => by simp [List.idxOf?] at h
+  | x :: xs, a, i, h => by
+    rw [List.idxOf?_cons] at h
+    by_cases hx : (x == a) = true
+    · simp only [hx, if_true, Option.some.injEq] at h
+      subst h
+      simp [eq_of_beq hx]
+    · simp only [hx, Bool.false_eq_true, if_false, Option.map_eq_some_iff] at h
+      obtain ⟨j, hj, rfl⟩ := h
+      simpa using idxOf?_some xs a j hj
+
+theorem getIndex_spec (hdr : List Bytes) (name : Bytes) :
+    (hdr ++ ((getIndex hdr name).2.drop hdr.length) = (getIndex hdr name).2)
+    ∧ (getIndex hdr name).2[(getIndex hdr name).1]? = some name := by
+  unfold getIndex
+  cases h : hdr.idxOf? name with
+  | some i => simp [idxOf?_some hdr name i h]
+  | none => simp
+
+theorem prefix_getElem? {α : Type} (l1 l2 : List α) (h : l1 <+: l2) (i : Nat) (a : α)
+    (hi : l1[i]? = some a) : l2[i]? = some a := by
+  obtain ⟨t, rfl⟩ := h
+  have hlt : i < l1.length := by
+    by_cases hc : i < l1.length
+    · exact hc
+    · simp [List.getElem?_eq_none (Nat.le_of_not_lt hc)] at hi
+  rw [List.getElem?_append_left hlt]
+  exact hi
+
+theorem getIndex_prefix (hdr : List Bytes) (name : Bytes) : hdr <+: (getIndex hdr name).2 :=
+  ⟨_, (getIndex_spec hdr name).1⟩
+
+/-- the segments of a column lie one after the other (what the self-compressing layout keeps:
+the first offset and the sizes). -/
+def Contig : List SegM → Prop
+  | [] => True
+  | [_] => True
+  | a :: b :: rest => b.offset = a.offset + BitVec.ofNat 64 a.size ∧ Contig (b :: rest)
+
+theorem entriesFrom_contig : ∀ (es : List SegM) (off : W),
+    (∀ e0 ∈ es.head?, e0.offset = off) → Contig es → (∀ e ∈ es, e.size < 2 ^ 32) →
+    entriesFrom off (es.map (·.size)) = es
+  | [], _, _, _, _ => rfl
+  | [e], off, h0, _, hs => by
+    have := h0 e (by simp)
+    have hsz := hs e (by simp)
+    cases e
+    simp_all [entriesFrom, Nat.mod_eq_of_lt]
+  | a :: b :: rest, off, h0, hc, hs => by
+    have ha := h0 a (by simp)
+    have hsz := hs a (by simp)
+    obtain ⟨hb, hc'⟩ := hc
+    have ih := entriesFrom_contig (b :: rest) (off + BitVec.ofNat 64 a.size)
+      (by intro e0 he0; simp at he0; subst he0; rw [hb, ha]) hc' (fun e he => hs e (by simp [he]))
+    simp only [List.map_cons, entriesFrom, Nat.mod_eq_of_lt hsz] at ih ⊢
+    rw [ih]
+    cases a
+    simp_all
+
+/-- parser lemma on abstract inputs. -/
+theorem unmarshalColSelf_of (hdr : List Bytes) (segs : Nat) (buf r r2 r3 r4 : Bytes) (idx off : Nat)
+    (name : Bytes) (ty n : UInt8) (sizes : List Nat)
+    (h0 : readUvarint buf = some (idx, r)) (h1 : hdr[idx]? = some name) (hne : name ≠ [])
+    (hlen : ¬ r.length < 1 + 1 + 8 + segs * 4) (hr : r = ty :: n :: r2) (hl2 : ¬ r2.length < n.toNat)
+    (h3 : readBE 8 (r2.drop n.toNat) = some (off, r3)) (h4 : readN (readBE 4) segs r3 = some (sizes, r4)) :
+    unmarshalColSelf hdr segs buf
+      = some (⟨name, ty, if n.toNat > 0 then r2.take n.toNat else zeroPreAgg,
+               entriesFrom (BitVec.ofNat 64 off) sizes⟩, r4) := by
+  rw [unmarshalColSelf]
+  simp only [h0, h1, hne, if_false, hlen]
+  subst hr
+  simp only [hl2, if_false, h3, h4]
+
+structure ColSelfWF (preAggOn : Bool) (segs : Nat) (c : ColMetaM) : Prop where
+  name : c.name ≠ []
+  preAgg : (writtenPreAgg preAggOn c).length < 256
+  entries : c.entries.length = segs
+  sizes : ∀ e ∈ c.entries, e.size < 2 ^ 32
+  contig : Contig c.entries
+
+theorem flatMap_be4_length (es : List SegM) : (es.flatMap fun e => be 4 e.size).length = es.length * 4 := by
+  induction es with
+  | nil => rfl
+  | cons e es ih => simp only [List.flatMap_cons, List.length_append, be_length, ih, List.length_cons]; omega
+
+/-- one column of the self-compressing layout: written with the dictionary `hdr`, read with any
+dictionary `H` that extends the writer's. -/
+theorem unmarshalColSelf_marshal (preAggOn : Bool) (segs : Nat) (hdr H : List Bytes)
+    (c : ColMetaM) (h : ColSelfWF preAggOn segs c) (b : Bytes) (hdr' : List Bytes)
+    (hm : marshalColSelf preAggOn hdr c = some (b, hdr')) (hH : hdr' <+: H) (hidx : hdr'.length < 2 ^ 64)
+    (rest : Bytes) :
+    unmarshalColSelf H segs (b ++ rest) = some (normCol preAggOn c, rest) := by
+  have p4 : (256 : Nat) ^ 4 = 2 ^ 32 := by decide
+  have p8 : (256 : Nat) ^ 8 = 2 ^ 64 := by decide
+  unfold marshalColSelf at hm
+  cases hes : c.entries with
+  | nil => rw [hes] at hm; simp at hm
+  | cons e0 es =>
+    rw [hes] at hm
+    simp only [Option.some.injEq, Prod.mk.injEq] at hm
+    obtain ⟨hb, hh⟩ := hm
+    subst hb hh
+    obtain ⟨_, hget⟩ := getIndex_spec hdr c.name
+    have hidxlt : (getIndex hdr c.name).1 < (getIndex hdr c.name).2.length := by
+      by_cases hc : (getIndex hdr c.name).1 < (getIndex hdr c.name).2.length
+      · exact hc
+      · simp [List.getElem?_eq_none (Nat.le_of_not_lt hc)] at hget
+    have hpl : (UInt8.ofNat (writtenPreAgg preAggOn c).length).toNat = (writtenPreAgg preAggOn c).length :=
+      u8_toNat_ofNat_lt h.preAgg
+    have hsz : ∀ e ∈ e0 :: es, e.size < 2 ^ 32 := by rw [← hes]; exact h.sizes
+    have hlenes : (e0 :: es).length = segs := by rw [← hes]; exact h.entries
+    have hread := readN_flatMap (readBE 4) (fun e : SegM => be 4 e.size) (·.size) (e0 :: es) rest
+      (fun e he r => readBE_be_lt r (by rw [p4]; exact hsz e he))
+    rw [hlenes] at hread
+    let pa := writtenPreAgg preAggOn c
+    let fm := (e0 :: es).flatMap fun e : SegM => be 4 e.size
+    have hbuf : (putUvarint (getIndex hdr c.name).1 ++ (c.ty :: (UInt8.ofNat pa.length :: (pa
+        ++ (be 8 e0.offset.toNat ++ fm))))) ++ rest
+        = putUvarint (getIndex hdr c.name).1 ++ (c.ty :: UInt8.ofNat pa.length :: (pa
+          ++ (be 8 e0.offset.toNat ++ (fm ++ rest)))) := by simp
+    rw [hbuf]
+    have hfm := flatMap_be4_length (e0 :: es)
+    rw [hlenes] at hfm
+    have := unmarshalColSelf_of H segs
+      (putUvarint (getIndex hdr c.name).1 ++ (c.ty :: UInt8.ofNat pa.length :: (pa
+          ++ (be 8 e0.offset.toNat ++ (fm ++ rest)))))
+      (c.ty :: UInt8.ofNat pa.length :: (pa ++ (be 8 e0.offset.toNat ++ (fm ++ rest))))
+      (pa ++ (be 8 e0.offset.toNat ++ (fm ++ rest))) (fm ++ rest) rest
+      (getIndex hdr c.name).1 e0.offset.toNat c.name c.ty
+      (UInt8.ofNat pa.length) ((e0 :: es).map (·.size))
+      (readUvarint_put _ _ (by omega))
+      (prefix_getElem? _ _ hH _ _ hget) h.name
+      (by
+        simp only [List.length_cons, List.length_append, be_length]
+        show ¬ (pa.length + (8 + (fm.length + rest.length))) + 1 + 1 < 1 + 1 + 8 + segs * 4
+        rw [hfm]; omega)
+      rfl
+      (by rw [hpl]; show ¬ (pa ++ (be 8 e0.offset.toNat ++ (fm ++ rest))).length < pa.length
+          simp only [List.length_append]; omega)
+      (by rw [hpl, drop_app _ _ _ rfl]
+          exact readBE_be_lt _ (by rw [p8]; exact e0.offset.isLt))
+      hread
+    rw [this]
+    congr 1
+    unfold normCol normPreAgg
+    have hent : entriesFrom (BitVec.ofNat 64 e0.offset.toNat) ((e0 :: es).map (·.size)) = c.entries := by
+      rw [hes, w_ofNat_toNat]
+      exact entriesFrom_contig (e0 :: es) e0.offset (by simp) (by rw [← hes]; exact h.contig) hsz
+    rw [hent, hpl]
+    congr 1
+    by_cases hz : (writtenPreAgg preAggOn c).length > 0
+    · rw [if_pos hz, take_app _ _ _ rfl, if_neg (by intro he; simp [he] at hz)]
+    · have : writtenPreAgg preAggOn c = [] := List.eq_nil_of_length_eq_zero (by omega)
+      rw [if_neg hz, if_pos this]
+
+theorem marshalColSelf_prefix (preAggOn : Bool) (hdr : List Bytes) (c : ColMetaM) (b : Bytes) (hdr' : List Bytes)
+    (hm : marshalColSelf preAggOn hdr c = some (b, hdr')) : hdr <+: hdr' := by
+  unfold marshalColSelf at hm
+  cases hes : c.entries with
+  | nil => rw [hes] at hm; simp at hm
+  | cons e0 es =>
+    rw [hes] at hm
+    simp only [Option.some.injEq, Prod.mk.injEq] at hm
+    rw [← hm.2]
+    exact getIndex_prefix hdr c.name
+
+theorem marshalColsSelf_prefix (preAggOn : Bool) : ∀ (cols : List ColMetaM) (hdr : List Bytes) (b : Bytes)
+    (hdr' : List Bytes), marshalColsSelf preAggOn hdr cols = some (b, hdr') → hdr <+: hdr'
+  | [], hdr, b, hdr', hm => by
+    simp only [marshalColsSelf, Option.some.injEq, Prod.mk.injEq] at hm
+    rw [← hm.2]
+    exact List.prefix_refl _
+  | c :: cs, hdr, b, hdr', hm => by
+    rw [marshalColsSelf] at hm
+    cases h1 : marshalColSelf preAggOn hdr c with
+    | none => simp [h1] at hm
+    | some p1 =>
+      obtain ⟨b1, hd1⟩ := p1
+      simp only [h1] at hm
+      cases h2 : marshalColsSelf preAggOn hd1 cs with
+      | none => simp [h2] at hm
+      | some p2 =>
+        obtain ⟨b2, hd2⟩ := p2
+        simp only [h2, Option.some.injEq, Prod.mk.injEq] at hm
+        rw [← hm.2]
+        exact List.IsPrefix.trans (marshalColSelf_prefix preAggOn hdr c b1 hd1 h1)
+          (marshalColsSelf_prefix preAggOn cs hd1 b2 hd2 h2)
+
+theorem prefix_length_le {α : Type} {l1 l2 : List α} (h : l1 <+: l2) : l1.length ≤ l2.length := by
+  obtain ⟨t, rfl⟩ := h; simp
+
+/-- all columns of a chunk meta: written threading the dictionary, read with the final one. -/
+theorem unmarshalColsSelf_marshal (preAggOn : Bool) (segs : Nat) (H : List Bytes) (hH : H.length < 2 ^ 64) :
+    ∀ (cols : List ColMetaM) (hdr : List Bytes) (b : Bytes) (hdr' : List Bytes) (rest : Bytes),
+      (∀ c ∈ cols, ColSelfWF preAggOn segs c) → marshalColsSelf preAggOn hdr cols = some (b, hdr') →
+      hdr' <+: H →
+      readN (unmarshalColSelf H segs) cols.length (b ++ rest) = some (cols.map (normCol preAggOn), rest)
+  | [], hdr, b, hdr', rest, _, hm, _ => by
+    simp only [marshalColsSelf, Option.some.injEq, Prod.mk.injEq] at hm
+    rw [← hm.1]
+    simp [readN]
+  | c :: cs, hdr, b, hdr', rest, hwf, hm, hp => by
+    rw [marshalColsSelf] at hm
+    cases h1 : marshalColSelf preAggOn hdr c with
+    | none => simp [h1] at hm
+    | some p1 =>
+      obtain ⟨b1, hd1⟩ := p1
+      simp only [h1] at hm
+      cases h2 : marshalColsSelf preAggOn hd1 cs with
+      | none => simp [h2] at hm
+      | some p2 =>
+        obtain ⟨b2, hd2⟩ := p2
+        simp only [h2, Option.some.injEq, Prod.mk.injEq] at hm
+        obtain ⟨hb, hh⟩ := hm
+        subst hb hh
+        have hp1 : hd1 <+: H := List.IsPrefix.trans (marshalColsSelf_prefix preAggOn cs hd1 b2 hd2 h2) hp
+        have hl1 : hd1.length < 2 ^ 64 := Nat.lt_of_le_of_lt (prefix_length_le hp1) hH
+        have e1 := unmarshalColSelf_marshal preAggOn segs hdr H c (hwf c (by simp)) b1 hd1 h1 hp1 hl1
+          (b2 ++ rest)
+        have ih := unmarshalColsSelf_marshal preAggOn segs H hH cs hd1 b2 hd2 rest
+          (fun x hx => hwf x (by simp [hx])) h2 hp
+        simp only [List.length_cons, readN, List.append_assoc, e1, ih, List.map_cons]
+
+theorem pairUp_flatRanges : ∀ trs : List (W × W), pairUp (flatRanges trs) = trs
+  | [] => rfl
+  | t :: ts => by
+    have ih := pairUp_flatRanges ts
+    simp only [flatRanges, List.flatMap_cons, List.cons_append, List.nil_append, pairUp, BitVec.ofInt_toInt] at ih ⊢
+    rw [ih]
+
+theorem flatRanges_length (trs : List (W × W)) : (flatRanges trs).length = 2 * trs.length := by
+  induction trs with
+  | nil => rfl
+  | cons t ts ih =>
+    simp only [flatRanges, List.flatMap_cons, List.length_append, List.length_cons, List.length_nil] at ih ⊢
+    omega
+
+theorem toInt_range (w : W) : InInt64 w.toInt := by
+  have h1 := BitVec.le_toInt w
+  have h2 := @BitVec.toInt_lt 64 w
+  unfold InInt64
+  simp only [Nat.add_one_sub_one] at h1 h2
+  exact ⟨by omega, by omega⟩
+
+theorem flatRanges_range (trs : List (W × W)) : ∀ v ∈ flatRanges trs, InInt64 v := by
+  intro v hv
+  simp only [flatRanges, List.mem_flatMap, List.mem_cons, List.not_mem_nil, or_false] at hv
+  obtain ⟨t, _, h | h⟩ := hv <;> subst h <;> exact toInt_range _
+
+/-- parser lemma on abstract inputs. -/
+theorem unmarshalCMSelf_of (hdr : List Bytes) (buf r0 r1 r2 r3 r4 r5 r6 : Bytes) (sid off size cc sc : Nat)
+    (ts : List Int) (cols : List ColMetaM)
+    (h0 : readBE 8 buf = some (sid, r0)) (h1 : readUvarint r0 = some (off, r1))
+    (h2 : readUvarint r1 = some (size, r2)) (h3 : readUvarint r2 = some (cc, r3))
+    (h4 : readUvarint r3 = some (sc, r4)) (h5 : decodeScaled (2 * (sc % 2 ^ 32)) r4 = some (ts, r5))
+    (h6 : readN (unmarshalColSelf hdr (sc % 2 ^ 32)) (cc % 2 ^ 32) r5 = some (cols, r6)) :
+    unmarshalCMSelf hdr buf
+      = some (⟨sid, BitVec.ofNat 64 off, size % 2 ^ 32, cc % 2 ^ 32, sc % 2 ^ 32, pairUp ts, cols⟩, r6) := by
+  rw [unmarshalCMSelf]
+  simp only [h0, h1, h2, h3, h4, h5, h6]
+
+structure ChunkMetaSelfWF (preAggOn : Bool) (m : ChunkMetaM) : Prop where
+  sid : m.sid < 2 ^ 64
+  size : m.size < 2 ^ 32
+  columnCount : m.columnCount < 2 ^ 32
+  segCount : m.segCount < 2 ^ 32
+  ranges : m.timeRange.length = m.segCount
+  cols : m.cols.length = m.columnCount
+  col : ∀ c ∈ m.cols, ColSelfWF preAggOn m.segCount c
+
+/-- **chunk meta (self-compressing layout) round-trips**: uvarint attributes, scaled time ranges,
+column names through the dictionary the writer collects for the trailer (read back with any
+dictionary extending it — later chunk metas of the file append to it), pre-aggregation blocks
+shorter than 256 bytes, contiguous segments as first offset + sizes. -/
+theorem chunk_meta_self_roundtrip (preAggOn : Bool) (hdr H : List Bytes) (m : ChunkMetaM)
+    (h : ChunkMetaSelfWF preAggOn m) (b : Bytes) (hdr' : List Bytes)
+    (hm : marshalCMSelf preAggOn hdr m = some (b, hdr')) (hp : hdr' <+: H) (hH : H.length < 2 ^ 64)
+    (rest : Bytes) : unmarshalCMSelf H (b ++ rest) = some (normCM preAggOn m, rest) := by
+  have p8 : (256 : Nat) ^ 8 = 2 ^ 64 := by decide
+  rw [marshalCMSelf] at hm
+  cases hc : marshalColsSelf preAggOn hdr m.cols with
+  | none => simp [hc] at hm
+  | some pc =>
+    obtain ⟨cb, hd⟩ := pc
+    simp only [hc, Option.some.injEq, Prod.mk.injEq] at hm
+    obtain ⟨hb, hh⟩ := hm
+    subst hb hh
+    have hsc : m.segCount % 2 ^ 32 = m.segCount := Nat.mod_eq_of_lt h.segCount
+    have hcc : m.columnCount % 2 ^ 32 = m.columnCount := Nat.mod_eq_of_lt h.columnCount
+    have hcols := unmarshalColsSelf_marshal preAggOn m.segCount H hH m.cols hdr cb hd rest h.col hc hp
+    rw [h.cols] at hcols
+    have hts := scaled_int64s_roundtrip (flatRanges m.timeRange) (flatRanges_range _) (cb ++ rest)
+    rw [flatRanges_length, h.ranges] at hts
+    let t5 := cb ++ rest
+    let t4 := encodeScaled (flatRanges m.timeRange) ++ t5
+    let t3 := putUvarint m.segCount ++ t4
+    let t2 := putUvarint m.columnCount ++ t3
+    let t1 := putUvarint m.size ++ t2
+    let t0 := putUvarint m.offset.toNat ++ t1
+    have hbuf : (be 8 m.sid ++ (putUvarint m.offset.toNat ++ (putUvarint m.size ++ (putUvarint m.columnCount
+        ++ (putUvarint m.segCount ++ (encodeScaled (flatRanges m.timeRange) ++ cb)))))) ++ rest
+        = be 8 m.sid ++ t0 := by simp [t0, t1, t2, t3, t4, t5]
+    rw [hbuf]
+    have := unmarshalCMSelf_of H (be 8 m.sid ++ t0) t0 t1 t2 t3 t4 t5 rest m.sid m.offset.toNat m.size
+      m.columnCount m.segCount (flatRanges m.timeRange) (m.cols.map (normCol preAggOn))
+      (readBE_be_lt _ (by rw [p8]; exact h.sid))
+      (readUvarint_put _ _ m.offset.isLt) (readUvarint_put _ _ (by have := h.size; omega))
+      (readUvarint_put _ _ (by have := h.columnCount; omega)) (readUvarint_put _ _ (by have := h.segCount; omega))
+      (by rw [hsc]; exact hts) (by rw [hsc, hcc]; exact hcols)
+    rw [this, pairUp_flatRanges, w_ofNat_toNat, hsc, hcc, Nat.mod_eq_of_lt h.size]
+    rfl
+
+/-- non-vacuity: two chunk metas written one after the other share the dictionary; both read
+back with the final one. -/
+example : (marshalCMSelf true [] cmExample).map (·.2) = some [[102], timeFieldName] := by decide +kernel
+example : ((marshalCMSelf true [] cmExample).bind fun r => unmarshalCMSelf (r.2 ++ [[120]]) r.1)
+    = some (cmExample, []) := by decide +kernel
+
 /-! ## meta index -/
 
 /-- **meta index items round-trip** (both the attached and the detached form, which has no count). -/
@@ -160,5 +482,183 @@ theorem meta_index_roundtrip (detached : Bool) (m : MetaIndexM) (hid : m.id < 2 
     rw [readBE_be_lt _ (by rw [p4]; exact hs)]
 
 example : (marshalMetaIndex false ⟨1, 2#64, 3#64, 4#64, 5, 6⟩).length = 40 := by decide
+
+/-! ## trailer -/
+
+theorem flatMap_str16_length_pos (vs : List Bytes) (h : vs ≠ []) : 0 < (vs.flatMap str16).length := by
+  cases vs with
+  | nil => exact absurd rfl h
+  | cons v vs => simp [str16]; omega
+
+theorem readStrings_enc : ∀ (vs : List Bytes) (fuel : Nat), (∀ v ∈ vs, v.length < 2 ^ 16) →
+    (vs.flatMap str16).length ≤ fuel → readStrings fuel (vs.flatMap str16) = some vs
+  | [], fuel, _, _ => by cases fuel <;> rfl
+  | v :: vs, fuel, hv, hf => by
+    have p2 : (256 : Nat) ^ 2 = 2 ^ 16 := by decide
+    have hl : (str16 v).length = v.length + 2 := by simp [str16]; omega
+    obtain ⟨f, rfl⟩ : ∃ f, fuel = f + 1 := ⟨fuel - 1, by
+      simp only [List.flatMap_cons, List.length_append, hl] at hf; omega⟩
+    have ih := readStrings_enc vs f (fun x hx => hv x (by simp [hx])) (by
+      simp only [List.flatMap_cons, List.length_append, hl] at hf; omega)
+    simp only [List.flatMap_cons, str16, List.append_assoc]
+    rw [readStrings]
+    · rw [readBE_be_lt _ (by rw [p2]; exact hv v (by simp))]
+      simp only
+      rw [if_neg (by simp), drop_app _ _ _ rfl, take_app _ _ _ rfl, ih]
+      rfl
+    · intro he
+      have := congrArg List.length he
+      simp at this
+
+structure TrailerWF (t : TrailerM) : Prop where
+  minId : t.minId < 2 ^ 64
+  maxId : t.maxId < 2 ^ 64
+  bloomM : t.bloomM < 2 ^ 64
+  bloomK : t.bloomK < 2 ^ 64
+  name : t.name.length < 2 ^ 16
+  ts : t.timeStoreFlag < 256
+  cc : t.chunkMetaCompressFlag < 256
+  /-- a header without values is not stored (it reads back as "no header") -/
+  hdrNonEmpty : t.header ≠ some []
+  hdrVals : ∀ vs, t.header = some vs → (∀ v ∈ vs, v.length < 2 ^ 16) ∧ vs.length < 2 ^ 16
+    ∧ (vs.flatMap str16).length + 10 < 2 ^ 32
+
+/-- `ExtraData`: flags, the real length in the upper half of the flag word, the dictionary. -/
+theorem unmarshalExtra_marshal (t : TrailerM) (h : TrailerWF t) (r : Bytes) :
+    unmarshalExtra (be 2 8 ++ (marshalExtra t ++ r))
+      = some (t.timeStoreFlag, t.chunkMetaCompressFlag, t.header, r) := by
+  have p2 : (256 : Nat) ^ 2 = 2 ^ 16 := by decide
+  have p8 : (256 : Nat) ^ 8 = 2 ^ 64 := by decide
+  have hts := h.ts
+  have hcc := h.cc
+  rw [unmarshalExtra, readBE_be_lt _ (by decide)]
+  simp only
+  cases hh : t.header with
+  | none =>
+    -- flags (8 bytes) ++ be 2 0 : size = 10
+    have hm : marshalExtra t = le 8 (t.timeStoreFlag % 256 + t.chunkMetaCompressFlag % 256 * 256 + 10 * 2 ^ 32)
+        ++ be 2 0 := by
+      simp [marshalExtra, hh]
+    rw [hm]
+    have hfl : unle ((le 8 (t.timeStoreFlag % 256 + t.chunkMetaCompressFlag % 256 * 256 + 10 * 2 ^ 32)
+        ++ (be 2 0 ++ r)).take 8) = t.timeStoreFlag + t.chunkMetaCompressFlag * 256 + 10 * 2 ^ 32 := by
+      rw [take_app _ _ _ (le_length 8 _), unle_le, p8, Nat.mod_eq_of_lt hts, Nat.mod_eq_of_lt hcc]
+      omega
+    simp only [List.append_assoc]
+    rw [if_neg (by simp)]
+    simp only [List.take_take, Nat.min_self, hfl]
+    have e1 : (t.timeStoreFlag + t.chunkMetaCompressFlag * 256 + 10 * 2 ^ 32) % 256 = t.timeStoreFlag := by omega
+    have e2 : (t.timeStoreFlag + t.chunkMetaCompressFlag * 256 + 10 * 2 ^ 32) / 256 % 256
+        = t.chunkMetaCompressFlag := by omega
+    have e3 : (t.timeStoreFlag + t.chunkMetaCompressFlag * 256 + 10 * 2 ^ 32) / 2 ^ 32 = 10 := by omega
+    simp only [e1, e2, e3]
+    have hlen : (le 8 (t.timeStoreFlag % 256 + t.chunkMetaCompressFlag % 256 * 256 + 10 * 2 ^ 32) ++ (be 2 0 ++ r)).length
+        = 10 + r.length := by simp; omega
+    have hdrop : (le 8 (t.timeStoreFlag % 256 + t.chunkMetaCompressFlag % 256 * 256 + 10 * 2 ^ 32) ++ (be 2 0 ++ r)).drop 10 = r := by
+      rw [← List.append_assoc]; exact drop_app _ _ _ (by simp)
+    have htake : ((le 8 (t.timeStoreFlag % 256 + t.chunkMetaCompressFlag % 256 * 256 + 10 * 2 ^ 32) ++ (be 2 0 ++ r)).take 10).drop 10 = [] := by
+      simp
+    simp [hlen, hdrop, htake]
+  | some vs =>
+    obtain ⟨hv, hn, hL⟩ := h.hdrVals vs hh
+    have hne : vs ≠ [] := by intro he; rw [he] at hh; exact h.hdrNonEmpty hh
+    have hpos := flatMap_str16_length_pos vs hne
+    generalize hLdef : (vs.flatMap str16).length = Lh at hL hpos
+    have hm : marshalExtra t = le 8 (t.timeStoreFlag % 256 + t.chunkMetaCompressFlag % 256 * 256 + (10 + Lh) * 2 ^ 32)
+        ++ (be 2 vs.length ++ vs.flatMap str16) := by
+      simp only [marshalExtra, hh, List.length_append, be_length, hLdef]
+      rw [show (8 + (2 + Lh)) % 2 ^ 32 = 10 + Lh by omega]
+    rw [hm]
+    have hfl : unle ((le 8 (t.timeStoreFlag % 256 + t.chunkMetaCompressFlag % 256 * 256 + (10 + Lh) * 2 ^ 32)
+        ++ ((be 2 vs.length ++ vs.flatMap str16) ++ r)).take 8)
+        = t.timeStoreFlag + t.chunkMetaCompressFlag * 256 + (10 + Lh) * 2 ^ 32 := by
+      rw [take_app _ _ _ (le_length 8 _), unle_le, p8, Nat.mod_eq_of_lt hts, Nat.mod_eq_of_lt hcc]
+      omega
+    rw [List.append_assoc]
+    rw [if_neg (by simp)]
+    simp only [List.take_take, Nat.min_self, hfl]
+    have e1 : (t.timeStoreFlag + t.chunkMetaCompressFlag * 256 + (10 + Lh) * 2 ^ 32) % 256 = t.timeStoreFlag := by omega
+    have e2 : (t.timeStoreFlag + t.chunkMetaCompressFlag * 256 + (10 + Lh) * 2 ^ 32) / 256 % 256
+        = t.chunkMetaCompressFlag := by omega
+    have e3 : (t.timeStoreFlag + t.chunkMetaCompressFlag * 256 + (10 + Lh) * 2 ^ 32) / 2 ^ 32 = 10 + Lh := by omega
+    simp only [e1, e2, e3]
+    have hlen : (le 8 (t.timeStoreFlag % 256 + t.chunkMetaCompressFlag % 256 * 256 + (10 + Lh) * 2 ^ 32)
+        ++ ((be 2 vs.length ++ vs.flatMap str16) ++ r)).length = 10 + Lh + r.length := by
+      simp only [List.length_append, le_length, be_length, hLdef]; omega
+    have hassoc : le 8 (t.timeStoreFlag % 256 + t.chunkMetaCompressFlag % 256 * 256 + (10 + Lh) * 2 ^ 32)
+        ++ ((be 2 vs.length ++ vs.flatMap str16) ++ r)
+        = ((le 8 (t.timeStoreFlag % 256 + t.chunkMetaCompressFlag % 256 * 256 + (10 + Lh) * 2 ^ 32)
+            ++ be 2 vs.length) ++ vs.flatMap str16) ++ r := by simp
+    have hdrop : (le 8 (t.timeStoreFlag % 256 + t.chunkMetaCompressFlag % 256 * 256 + (10 + Lh) * 2 ^ 32)
+        ++ ((be 2 vs.length ++ vs.flatMap str16) ++ r)).drop (10 + Lh) = r := by
+      rw [hassoc]; exact drop_app _ _ _ (by simp [hLdef]; omega)
+    have htake : ((le 8 (t.timeStoreFlag % 256 + t.chunkMetaCompressFlag % 256 * 256 + (10 + Lh) * 2 ^ 32)
+        ++ ((be 2 vs.length ++ vs.flatMap str16) ++ r)).take (10 + Lh)).drop 10 = vs.flatMap str16 := by
+      rw [hassoc, take_app _ _ _ (by simp [hLdef]; omega)]
+      exact drop_app _ _ _ (by simp)
+    have hrs := readStrings_enc vs Lh hv (by omega)
+    have hfne : vs.flatMap str16 ≠ [] := by
+      intro he; rw [he] at hLdef; simp at hLdef; omega
+    have hnew : (8 ≠ 0 ∧ 8 ≠ 1 ∧ 8 ≠ 2 ∧ 8 ≤ 8) := by decide
+    have hpos10 : 10 + Lh > 0 := by omega
+    have c1 : ¬ (10 + Lh = 0 ∨ ¬ (8 ≠ 0 ∧ 8 ≠ 1 ∧ 8 ≠ 2 ∧ 8 ≤ 8)) := by
+      intro hc; rcases hc with hc | hc
+      · omega
+      · exact hc hnew
+    have c2 : ¬ (10 + Lh + r.length < 10 + Lh) := by omega
+    have c3 : ¬ (10 + Lh < 10) := by omega
+    have c4 : ¬ (8 = 1 ∨ 8 = 2) := by decide
+    have c5 : ¬ (8 = 2) := by decide
+    simp only [if_pos hnew, if_pos hpos10, if_neg c1, hlen, if_neg c2, if_neg c3, htake, if_neg hfne, hLdef, hrs,
+      hdrop, if_neg c4, if_neg c5, Option.map_some]
+
+
+/-- parser lemma on abstract inputs. -/
+theorem unmarshalTrailer_of (src r0 r1 r2 r3 r4 r5 : Bytes) (a b c d e f g mnT mxT items : W)
+    (minId maxId bm bk ts cc nl : Nat) (hdr : Option (List Bytes))
+    (hlen : ¬ src.length < trailerSize)
+    (h0 : readN readI64 7 src = some ([a, b, c, d, e, f, g], r0))
+    (h1 : readN (readBE 8) 2 r0 = some ([minId, maxId], r1))
+    (h2 : readN readI64 3 r1 = some ([mnT, mxT, items], r2))
+    (h3 : readN (readBE 8) 2 r2 = some ([bm, bk], r3))
+    (h4 : unmarshalExtra r3 = some (ts, cc, hdr, r4))
+    (h5 : readBE 2 r4 = some (nl, r5)) (h6 : ¬ r5.length < nl) :
+    unmarshalTrailer src
+      = some (⟨a, b, c, d, e, f, g, minId, maxId, mnT, mxT, items, bm, bk, r5.take nl, ts, cc, hdr⟩, r5.drop nl) := by
+  rw [unmarshalTrailer]
+  simp only [hlen, if_false, h0, h1, h2, h3, h4, h5, h6]
+
+/-- **file trailer round-trips**: the six section sizes, the table statistics, the flags, the
+measurement name and the column-name dictionary of the self-compressing chunk-meta layout (whose
+real length travels in the upper half of the flag word). -/
+theorem trailer_roundtrip (t : TrailerM) (h : TrailerWF t) (rest : Bytes) :
+    unmarshalTrailer (marshalTrailer t ++ rest) = some (t, rest) := by
+  have p2 : (256 : Nat) ^ 2 = 2 ^ 16 := by decide
+  have p8 : (256 : Nat) ^ 8 = 2 ^ 64 := by decide
+  have hlen : ¬ (marshalTrailer t ++ rest).length < trailerSize := by
+    simp only [marshalTrailer, List.length_append, i64_length, be_length, trailerSize]
+    omega
+  let x5 := t.name ++ rest
+  let x4 := be 2 t.name.length ++ x5
+  let x3 := be 2 8 ++ (marshalExtra t ++ x4)
+  let x2 := be 8 t.bloomM ++ (be 8 t.bloomK ++ x3)
+  let x1 := i64 t.minTime ++ (i64 t.maxTime ++ (i64 t.metaIndexItemNum ++ x2))
+  let x0 := be 8 t.minId ++ (be 8 t.maxId ++ x1)
+  have hbuf : marshalTrailer t ++ rest = i64 t.dataOffset ++ (i64 t.dataSize ++ (i64 t.indexSize
+      ++ (i64 t.metaIndexSize ++ (i64 t.bloomSize ++ (i64 t.idTimeSize ++ (i64 t.idCount ++ x0)))))) := by
+    simp [marshalTrailer, x0, x1, x2, x3, x4, x5]
+  have := unmarshalTrailer_of (marshalTrailer t ++ rest) x0 x1 x2 x3 x4 x5 t.dataOffset t.dataSize t.indexSize
+    t.metaIndexSize t.bloomSize t.idTimeSize t.idCount t.minTime t.maxTime t.metaIndexItemNum t.minId t.maxId
+    t.bloomM t.bloomK t.timeStoreFlag t.chunkMetaCompressFlag t.name.length t.header hlen
+    (by rw [hbuf]; simp only [readN, readI64_i64])
+    (by simp only [x0, readN, readBE_be_lt _ (show t.minId < 256 ^ 8 by rw [p8]; exact h.minId),
+          readBE_be_lt _ (show t.maxId < 256 ^ 8 by rw [p8]; exact h.maxId)])
+    (by simp only [x1, readN, readI64_i64])
+    (by simp only [x2, readN, readBE_be_lt _ (show t.bloomM < 256 ^ 8 by rw [p8]; exact h.bloomM),
+          readBE_be_lt _ (show t.bloomK < 256 ^ 8 by rw [p8]; exact h.bloomK)])
+    (unmarshalExtra_marshal t h x4)
+    (readBE_be_lt _ (by rw [p2]; exact h.name))
+    (by simp [x5])
+  rw [this, take_app _ _ _ rfl, drop_app _ _ _ rfl]
 
 end OG.C07
